@@ -829,6 +829,10 @@ class Executor(Exec):
                 names.append(c.name)
             elif isinstance(c, _Builtin):
                 names.append(c.name)
+            elif isinstance(c, Opaque) and c.label.startswith("import "):
+                # a class imported from a third-party package: no repo object and no scalar is an instance
+                names.append("<external:" + c.label + ">")
+                self.assumptions_used.add("classes of the repository do not derive from third-party classes tested with isinstance (lark Tree/Token)")
             else:
                 raise OutOfSubset("isinstance against computed class")
         if isinstance(v, SObj):
